@@ -143,14 +143,15 @@ Qed.
 
 (* ---------- what one queue operation notifies ---------- *)
 (* c: a lower bound of the start of every trial added; L, L': the log before and after *)
-Definition notes_ok (c : Z) (L : list (Z * Z)) (ev : list event) (L' : list (Z * Z)) : Prop :=
-  valid_notes L ev /\ net_live L ev = L' /\ removed_of ev = [] /\ Forall (fun kt => c <= snd kt) (added_of ev).
+Definition notes_ok (K c : Z) (L : list (Z * Z)) (ev : list event) (L' : list (Z * Z)) : Prop :=
+  valid_notes L ev /\ net_live L ev = L' /\ removed_of ev = [] /\
+  Forall (fun kt => c <= snd kt /\ 0 <= fst kt < K) (added_of ev).
 
-Lemma notes_ok_nil c L : notes_ok c L [] L.
+Lemma notes_ok_nil K c L : notes_ok K c L [] L.
 Proof. repeat split; constructor. Qed.
 
-Lemma notes_ok_app c c1 L e1 L1 e2 L2 : notes_ok c L e1 L1 -> notes_ok c1 L1 e2 L2 -> c <= c1 ->
-  notes_ok c L (e1 ++ e2) L2.
+Lemma notes_ok_app K c c1 L e1 L1 e2 L2 : notes_ok K c L e1 L1 -> notes_ok K c1 L1 e2 L2 -> c <= c1 ->
+  notes_ok K c L (e1 ++ e2) L2.
 Proof.
   intros (V1 & N1 & R1 & A1) (V2 & N2 & R2 & A2) Hc. repeat split.
   - apply valid_notes_app. rewrite N1. tauto.
@@ -162,7 +163,7 @@ Qed.
 
 Lemma pop_step_live es q P A n : sinv es q P A -> minlen es = true -> 0 < n ->
   match pop_step all_rep q n with
-  | PBok q1 out ev => notes_ok (q_samples q) (live_of q) ev (live_of q1)
+  | PBok q1 out ev => notes_ok (zlen es) (q_samples q) (live_of q) ev (live_of q1)
   | _ => True
   end.
 Proof.
@@ -183,17 +184,18 @@ Proof.
     pose proof (sv_src _ _ _ _ _ _ _ I) as Hs. cbn in Hs.
     rewrite Forall_forall in D1, Hs. specialize (D1 b Hb). specialize (Hs b Hb). unfold iend in Hs.
     unfold pair_of in E. inversion E. lia.
-  - constructor; [cbn; lia|constructor].
+  - constructor; [cbn; split; [lia|]|constructor].
+    destruct (sv_shape _ _ _ _ _ _ _ I key e0 Z0) as (e00 & H00 & _). eapply znth_Some_lt. exact H00.
 Qed.
 
 Lemma pop_loop_live es : forall fuel q n P A q' out ev,
   sinv es q P A -> minlen es = true -> (0 < n -> q_paused q = true -> in_progress q = false) ->
   pop_loop fuel all_rep q n = Some (q', out, ev) ->
-  notes_ok (q_samples q) (live_of q) ev (live_of q').
+  notes_ok (zlen es) (q_samples q) (live_of q) ev (live_of q') /\ q_samples q <= q_samples q'.
 Proof.
   induction fuel as [|f IH]; intros q n P A q' out ev I M Hp H; cbn [pop_loop] in H.
-  - destruct (n <=? 0); [|discriminate]. inversion H; subst. apply notes_ok_nil.
-  - destruct (n <=? 0) eqn:En. { inversion H; subst. apply notes_ok_nil. }
+  - destruct (n <=? 0); [|discriminate]. inversion H; subst. split; [apply notes_ok_nil|lia].
+  - destruct (n <=? 0) eqn:En. { inversion H; subst. split; [apply notes_ok_nil|lia]. }
     assert (Hn : 0 < n) by lia.
     pose proof (pop_step_sinv es q P A n I Hn (Hp Hn)) as PS.
     pose proof (pop_step_live es q P A n I M Hn) as PL.
@@ -206,14 +208,15 @@ Proof.
       { unfold sinv. cbn [add_samples q_samples q_data q_generated q_source]. rewrite SM. exact I1. }
       specialize (IH _ _ _ _ _ _ _ I1' M (fun _ (E : q_paused (add_samples q1 (zlen o1) false) = true) =>
                                              IP (eq_trans (eq_sym PA) E)) R).
-      eapply notes_ok_app; [exact PL|exact IH|]. cbn [add_samples q_samples]. pose proof (Zlen_nonneg o1). lia.
-    + inversion H; subst q' out ev. repeat split; try constructor.
+      destruct IH as [IH1 IH2]. cbn [add_samples q_samples] in IH1, IH2. pose proof (Zlen_nonneg o1).
+      split; [|lia]. eapply notes_ok_app; [exact PL|exact IH1|]. lia.
+    + inversion H; subst q' out ev. split; [repeat split; try constructor|]. cbn [add_samples q_samples]. lia.
     + discriminate.
 Qed.
 
 Lemma pop_buffer_live es q n P A q' out ev :
   sinv es q P A -> minlen es = true -> timed_op q (Pop n) = true -> pop_buffer all_rep q n = Some (q', out, ev) ->
-  notes_ok (q_samples q) (live_of q) ev (live_of q').
+  notes_ok (zlen es) (q_samples q) (live_of q) ev (live_of q') /\ q_samples q <= q_samples q'.
 Proof.
   intros I M T H. eapply pop_loop_live; [exact I|exact M| |exact H].
   intros Hn Hpa. cbn [timed_op] in T. rewrite Hpa in T. destruct (in_progress q); [|reflexivity]. lia.
@@ -223,7 +226,7 @@ Qed.
 Lemma pause_live es q P A t : sinv es q P A -> minlen es = true ->
   let ev := map (fun i => ERemoved (q_key i) (i_t0 i)) (filter (fun i => ends_after i t) (rev (q_generated q))) in
   valid_notes (live_of q) ev /\ net_live (live_of q) ev = live_of (pause_state q t) /\ added_of ev = [] /\
-  Forall (fun kt => t < snd kt + len_of es (fst kt)) (removed_of ev).
+  Forall (fun kt => t < snd kt + len_of es (fst kt) /\ 0 <= fst kt < zlen es) (removed_of ev).
 Proof.
   intros I M ev.
   pose proof (sinv_NoDup _ _ _ _ M I) as ND. rewrite live_of_map in ND.
@@ -264,7 +267,7 @@ Proof.
     { clear. induction xs as [|x xs IH]; [reflexivity|]. cbn. destruct x. cbn. f_equal. exact IH. }
     rewrite Er. unfold xs. apply Forall_forall. intros x Hx. apply in_map_iff in Hx. destruct Hx as (i & <- & Hi).
     apply filter_In in Hi. destruct Hi as [Hi Hc]. apply in_rev in Hi.
-    pose proof (sv_log _ _ _ _ _ _ _ I) as L. rewrite Forall_forall in L. destruct (L i Hi) as (L1 & _).
+    pose proof (sv_log _ _ _ _ _ _ _ I) as L. rewrite Forall_forall in L. destruct (L i Hi) as (L1 & _ & _ & _ & L5).
     unfold c, ends_after in Hc. cbn [pair_of fst snd]. lia.
 Qed.
 
@@ -281,7 +284,7 @@ Proof.
       destruct (play_hist all_rep q1 _ ops) as [[[q2 e2] P2]|] eqn:RH; [|discriminate].
       inversion H; subst q' ev P'.
       apply andb_true_iff in W. destruct W as [W1 W2]. apply andb_true_iff in T. destruct T as [T1 T2].
-      destruct (pop_buffer_live _ _ _ _ _ _ _ _ I M T1 PB) as (V1 & N1 & _).
+      destruct (pop_buffer_live _ _ _ _ _ _ _ _ I M T1 PB) as ((V1 & N1 & _) & _).
       destruct (IH _ _ _ _ _ _ (pop_buffer_sinv _ _ _ _ _ _ _ _ I T1 PB) M W2 T2 RH) as [V2 N2].
       split; [apply valid_notes_app; rewrite N1; tauto|]. rewrite net_live_app, N1. exact N2.
     + destruct tm as [t|].
